@@ -229,6 +229,12 @@ func shownWith(f, g fld) bool {
 	return true
 }
 
+var (
+	sharedBuf bytes.Buffer
+	sharedEnc = text.NewEncoder(&sharedBuf)
+	sharedN   int
+)
+
 func doText() {
 	for _, t := range types {
 		fs := enumerate(t.id, nil, nil, nil)
@@ -277,7 +283,17 @@ func doText() {
 						fieldRec(vid, f.name(), "word", []byte("error: "+err.Error()), []byte("a text value"), nil)
 						return
 					}
-					emit(J{"k": "render", "vid": vid, "n": 0, "text": ints([]byte(str)), "s": []int{}, "lit": []int{}, "path": "", "kind": "", "tok": []int{}, "acc": []int{}, "tokp": []int{}})
+					emit(J{"k": "render", "vid": vid, "n": 0, "keep": false, "text": ints([]byte(str)), "s": []int{}, "lit": []int{}, "path": "", "kind": "", "tok": []int{}, "acc": []int{}, "tokp": []int{}})
+					// the same value on an Encoder that has rendered every earlier value of every type: same text
+					sharedBuf.Reset()
+					var str2 string
+					if err := sharedEnc.Encode(t.id, s); err != nil {
+						str2 = "error: " + err.Error()
+					} else {
+						str2 = sharedBuf.String()
+					}
+					sharedN++
+					emit(J{"k": "render", "vid": vid, "n": sharedN, "keep": false, "text": ints([]byte(str2)), "s": []int{}, "lit": []int{}, "path": "", "kind": "", "tok": []int{}, "acc": []int{}, "tokp": []int{}})
 					pv, err := parseText(str)
 					if err != nil {
 						fieldRec(vid, f.name(), "word", []byte("unparseable: "+err.Error()), []byte("a well-formed struct"), nil)
